@@ -18,7 +18,7 @@ ENV = {"OPENBLAS_NUM_THREADS": "1"}
 
 
 def _h(name, flags):
-    return {"name": name, "src": "blas.cpp", "flags": flags, "modes": ["mix"], "programs": {"quick": WORKERS * 5200, "thorough": WORKERS * 40000},
+    return {"name": name, "src": "blas.cpp", "flags": flags, "modes": ["mix"], "programs": {"quick": WORKERS * 12000, "thorough": WORKERS * 60000},
             "driver": "mmdrv_blas", "libs": LIBS, "env": ENV, "workers": WORKERS}
 
 
